@@ -5755,6 +5755,10 @@ func (t TimeRange) MaxTime() time.Time {
 func (t TimeRange) MinTimeNano() int64 {
 	if t.Min.IsZero() {
 		return MinTime
+	} else if t.Min.After(time.Unix(0, math.MaxInt64)) {
+		// A strict lower bound at the largest int64 lies one nanosecond past what
+		// UnixNano can represent; saturate instead of wrapping around.
+		return math.MaxInt64
 	}
 	return t.Min.UnixNano()
 }
@@ -5764,6 +5768,10 @@ func (t TimeRange) MinTimeNano() int64 {
 func (t TimeRange) MaxTimeNano() int64 {
 	if t.Max.IsZero() {
 		return MaxTime
+	} else if t.Max.Before(time.Unix(0, math.MinInt64)) {
+		// A strict upper bound at the smallest int64 lies one nanosecond before what
+		// UnixNano can represent; saturate instead of wrapping around.
+		return math.MinInt64
 	}
 	return t.Max.UnixNano()
 }
